@@ -231,6 +231,13 @@ func (u *UpstreamPlain) exchangeNet(
 	// err is already wrapped inside processConn.
 	resp, err = u.processConn(ctx, conn, connsPool, network, req, buf, bufReqLen)
 	if isExpectedConnErr(err) {
+		// The failed attempt may have read a part of a response into buf, so
+		// pack the request again.
+		bufReqLen, err = u.packReq(network, buf, req)
+		if err != nil {
+			return nil, fmt.Errorf("packing request: %w", err)
+		}
+
 		conn, err = connsPool.Create(ctx)
 		if err != nil {
 			return nil, fmt.Errorf("creating connection: %w", err)
@@ -384,26 +391,35 @@ func (u *UpstreamPlain) packReq(network Network, buf []byte, req *dns.Msg) (n in
 		return 0, dns.ErrBuf
 	}
 
+	msgBuf := buf
 	if network == NetworkTCP {
 		if reqLen > len(buf)-2 {
 			return 0, dns.ErrBuf
 		}
 
-		// #nosec G115 -- reqLen has already been checked against
-		// dns.MaxMsgSize, which equals math.MaxUint16.
-		binary.BigEndian.PutUint16(buf, uint16(reqLen))
-		_, err = req.PackBuffer(buf[2:])
-
-		return reqLen + 2, err
-	}
-
-	if reqLen > len(buf) {
+		msgBuf = buf[2:]
+	} else if reqLen > len(buf) {
 		return 0, dns.ErrBuf
 	}
 
-	_, err = req.PackBuffer(buf)
+	packed, err := req.PackBuffer(msgBuf)
+	if err != nil {
+		return 0, err
+	} else if len(packed) > len(msgBuf) {
+		return 0, dns.ErrBuf
+	}
 
-	return reqLen, err
+	// PackBuffer returns a newly allocated slice when msgBuf has no byte to
+	// spare, so make sure that the packed message is in buf.
+	n = copy(msgBuf, packed)
+	if network == NetworkTCP {
+		// #nosec G115 -- n is not greater than len(msgBuf), which is less than
+		// dns.MaxMsgSize, which equals math.MaxUint16.
+		binary.BigEndian.PutUint16(buf, uint16(n))
+		n += 2
+	}
+
+	return n, nil
 }
 
 // getBuffer gets a bytes buffer that used for packing the request and then for
